@@ -429,5 +429,5 @@ func gen(t *rapid.T) Case {
 }
 
 func TestGenerate(t *testing.T) {
-	vfrun.Run(t, vfrun.Prop[Case]{Property: "C17", Name: "TestGenerate", Gen: gen, Check: check}, vfrun.N(96, 800))
+	vfrun.Run(t, vfrun.Prop[Case]{Property: "C17", Name: "TestGenerate", Gen: gen, Check: check}, vfrun.N(128, 1000))
 }
